@@ -138,6 +138,7 @@ type Run struct {
 	rr         int
 
 	numCPU int
+	onEnd  []func()
 	worldRoot *G
 	attached map[string]interface{}
 }
@@ -217,6 +218,14 @@ func Execute(t *testing.T, cfg Config, setup func(r *Run), driver func(r *Run)) 
 			r.loop()
 			r.mu.Lock()
 			r.ended = true
+			onEnd := append([]func(){}, r.onEnd...)
+			r.mu.Unlock()
+			// tear the simulated world down so that goroutines outside the scheduler terminate
+			// (the bubble cannot be left while they keep running)
+			for _, f := range onEnd {
+				f()
+			}
+			r.mu.Lock()
 			for g := range r.parked {
 				r.blocked = append(r.blocked, g.ID+"@"+g.site)
 			}
@@ -243,6 +252,20 @@ func (r *Run) Step() int {
 	r.mu.Lock()
 	defer r.mu.Unlock()
 	return r.step
+}
+
+// OnEnd registers a function that runs (inside the bubble) right after the scheduler has ended the run.
+func (r *Run) OnEnd(f func()) {
+	r.mu.Lock()
+	r.onEnd = append(r.onEnd, f)
+	r.mu.Unlock()
+}
+
+// Ended reports whether the scheduler has ended the run.
+func (r *Run) Ended() bool {
+	r.mu.Lock()
+	defer r.mu.Unlock()
+	return r.ended
 }
 
 // Attach stores per-run data of the simulated world under a key.
@@ -610,15 +633,25 @@ func (r *Run) loop() {
 			r.current = nil
 			r.gen++
 			r.mu.Unlock()
-			tm := time.NewTimer(r.cfg.Sentinel)
+			// wake up at the latest when the virtual-time cap is reached: goroutines outside the
+			// scheduler (net/http, scripted servers) can keep timers going for ever
+			wait := r.cfg.Sentinel
+			if left := r.cfg.MaxVirt - now + time.Nanosecond; left < wait {
+				wait = left
+			}
+			tm := time.NewTimer(wait)
 			select {
 			case <-r.kick:
 				tm.Stop()
 				continue
 			case <-tm.C:
 				r.mu.Lock()
-				r.end = EndHang
 				r.lastTime = time.Since(r.start)
+				if r.lastTime > r.cfg.MaxVirt {
+					r.end = EndTimeCap
+				} else {
+					r.end = EndHang
+				}
 				r.mu.Unlock()
 				return
 			}
